@@ -2,6 +2,7 @@ package main
 
 import (
 	"fmt"
+	"go/token"
 	"go/types"
 	"sort"
 
@@ -30,6 +31,8 @@ func checkC02(c *Ctx) {
 	// a rollout deploy works on the live service: its slot may be overwritten only with a balancer that passed the gate,
 	// or requests of the rollout group are answered 503 while the new targets are still being probed (shared with C01)
 	r011(c, "R02.7 slot-overwritten-only-after-health-gate")
+	// what the deploy drains and disposes is the balancer that was replaced
+	rSlotSwap(c, "R02.8 replaced-balancer-is-the-slot's-previous-occupant")
 }
 
 // R02.1 deploy step order.
@@ -279,6 +282,12 @@ func (c *Ctx) guardedBy(rule string, owner string, f *types.Var, lock *types.Var
 			held := li.before(a.instr)
 			ok = held[lock] >= need
 			detail = fmt.Sprintf("requires %s (%s); must-hold lockset here: %s", lockName(lock), map[lockMode]string{modeR: "read", modeW: "write"}[need], held)
+			if ok {
+				if at := c.lockOnOtherObject(li, a, lock, need); at != "" {
+					ok = false
+					detail = fmt.Sprintf("%s is held here, but it was taken (at %s) on a different object than the one whose field is accessed", lockName(lock), at)
+				}
+			}
 		}
 		if prev, dup := seen[key]; dup {
 			if prev.ok && !ok {
@@ -468,4 +477,116 @@ func r024(c *Ctx, rule string) {
 				"a request that resolved its service before the swap (or passed the pause gate) and claims a target while Drain holds it in 'draining' gets StartRequest's ErrorDraining, which the balancer answers with a proxy error instead of re-resolving/retrying")
 		}
 	}
+}
+
+// rSlotSwap: UpdateLoadBalancer stores the new balancer into the slot its argument names and returns what that slot held
+// just before - the caller drains and disposes the returned balancer, so returning the other slot's occupant takes the
+// live balancer out of service and leaks the replaced one (shared by C02, C09).
+func rSlotSwap(c *Ctx, rule string) {
+	c.floor(rule, 4)
+	fn := c.method("Service", "UpdateLoadBalancer")
+	recv, lbP, slotP := ssa.Value(fn.Params[0]), ssa.Value(fn.Params[1]), ssa.Value(fn.Params[2])
+	activeF, rolloutF := c.field("Service", "active"), c.field("Service", "rollout")
+	rolloutK := c.enumVal(c.server, "TargetSlotRollout")
+	slotOf := func(conds []condEdge) *types.Var {
+		var out *types.Var
+		for _, f := range intFactsOf(conds, func(v ssa.Value) bool { return resolve(v) == slotP || v == slotP }) {
+			switch {
+			case f.op == token.EQL && f.k == rolloutK:
+				out = rolloutF
+			case f.op == token.NEQ && f.k == rolloutK:
+				out = activeF
+			case f.op == token.EQL:
+				out = activeF
+			}
+		}
+		return out
+	}
+	name := func(f *types.Var) string {
+		if f == nil {
+			return "?"
+		}
+		return f.Name()
+	}
+	type storeEv struct {
+		in    *ssa.Store
+		field *types.Var
+	}
+	var stores []storeEv
+	seenSlot := map[*types.Var]bool{}
+	for _, b := range fn.Blocks {
+		for _, in := range b.Instrs {
+			st, ok := in.(*ssa.Store)
+			if !ok {
+				continue
+			}
+			for _, vc := range valueCases(st.Addr, st.Block()) {
+				f, base, ok := fieldOfAddr(vc.val)
+				if !ok || (f != activeF && f != rolloutF) || base != recv {
+					continue
+				}
+				want := slotOf(vc.conds)
+				stores = append(stores, storeEv{st, f})
+				seenSlot[f] = true
+				c.ob(rule, "UpdateLoadBalancer/stores-into-the-named-slot ("+f.Name()+")", st.Pos(), want == f && resolve(st.Val) == lbP, true,
+					fmt.Sprintf("the slot written must be the one the slot argument names (argument says %s) and the value the balancer passed in", name(want)))
+			}
+		}
+	}
+	c.ob(rule, "UpdateLoadBalancer/writes-both-slots", fn.Pos(), seenSlot[activeF] && seenSlot[rolloutF], true, "")
+	for _, rc := range retCases(fn) {
+		v := rc.vals[0]
+		u, ok := v.(*ssa.UnOp)
+		if !ok || u.Op != token.MUL {
+			c.ob(rule, "UpdateLoadBalancer/returns-previous-occupant", rc.pos, false, true, "the result is not a value read from a slot")
+			continue
+		}
+		for _, ac := range valueCases(u.X, u.Block()) {
+			f, base, ok := fieldOfAddr(ac.val)
+			want := slotOf(append(append([]condEdge{}, ac.conds...), rc.conds...))
+			before := true
+			for _, st := range stores {
+				if st.field == f && !dominates(u, st.in) {
+					before = false // read after (or beside) the store: that is the new balancer, or not on the path at all
+				}
+			}
+			c.ob(rule, "UpdateLoadBalancer/returns-previous-occupant", rc.pos, ok && base == recv && want != nil && f == want && before, true,
+				fmt.Sprintf("the balancer returned (which the deploy then drains and disposes) must be what the named slot held before the store: returns s.%s where the argument names %s", name(f), name(want)))
+		}
+	}
+}
+
+// lockOnOtherObject: the lock is a field of the same struct type as the accessed field, it is not already held when the
+// accessing function is entered, and every acquisition in that function that covers the access is made on another object
+// than the one whose field is accessed (`copy.lock.Lock(); ... = live.field`): the position of such an acquisition, else "".
+func (c *Ctx) lockOnOtherObject(li *LockInfo, a fieldAccess, lock *types.Var, need lockMode) string {
+	if li.entryOf(a.fn)[lock] >= need || a.base == nil {
+		return ""
+	}
+	sameObj, otherObj := false, ""
+	for _, cs := range callsIn(a.fn) {
+		op, isOp := lockOpOf(cs.common())
+		if !isOp || !op.acquire || op.field != lock {
+			continue
+		}
+		_, lbase, _ := fieldOfAddr(cs.common().Args[0])
+		if lbase == nil || !types.Identical(lbase.Type(), a.base.Type()) {
+			return "" // the lock lives in another kind of object (a table guarded by its owner's lock): not instance-paired
+		}
+		if _, isDefer := cs.instr.(*ssa.Defer); isDefer {
+			continue
+		}
+		if !dominates(cs.instr, a.instr) {
+			continue
+		}
+		if resolve(lbase) == resolve(a.base) {
+			sameObj = true
+		} else {
+			otherObj = c.pos(cs.pos())
+		}
+	}
+	if !sameObj {
+		return otherObj
+	}
+	return ""
 }
